@@ -279,8 +279,8 @@ theorem lexLineComment_safe (rest : Bytes) (pos : Pos) (h : Valid rest) :
     · simp
   · simp
 
-theorem lexBlockComment_safe (rest : Bytes) (pos : Pos) (h : Valid rest)
-    (hd : hasEmptyDoc rest = false) : TrySafe rest (lexBlockComment rest pos) := by
+theorem lexBlockComment_safe (rest : Bytes) (pos : Pos) (h : Valid rest) :
+    TrySafe rest (lexBlockComment rest pos) := by
   unfold lexBlockComment TrySafe
   split
   · rename_i a b body
@@ -296,21 +296,18 @@ theorem lexBlockComment_safe (rest : Bytes) (pos : Pos) (h : Valid rest)
         have hlen : n ≤ (a :: b :: body).length := by simp; omega
         rw [bump_of_valid_drop hlen hv]
         dsimp only
-        -- the slice: only `/**/` (n = 4) makes the start exceed the end
-        have hi0 : i ≠ 0 := by
-          rintro rfl
-          match body, hi, h1, h2 with
-          | c :: d :: _, _, h1, h2 =>
-            simp [hasEmptyDoc] at hd
-            simp at h1 h2
-            exact absurd h2 (hd.1 hq.1 hq.2 h1)
-        have hsl : ∀ a0, a0 ≤ 3 → ∃ bb, slice (List.take n (a :: b :: body)) a0 ((List.take n (a :: b :: body)).length - 2) = some bb := by
-          intro a0 ha0
+        -- the slice `[3..len-2]` is only taken when `len > 4`, `[2..len-2]` always has `len ≥ 4`
+        have hlt : (List.take n (a :: b :: body)).length = n := by
+          simp only [List.length_take]; omega
+        have hsl : ∃ bb, slice (List.take n (a :: b :: body))
+            (if 4 < (List.take n (a :: b :: body)).length ∧
+              Option.map (fun x => x.toNat) (List.take n (a :: b :: body))[2]? = some 42 then 3 else 2)
+            ((List.take n (a :: b :: body)).length - 2) = some bb := by
           unfold slice
           rw [if_pos]
           · exact ⟨_, rfl⟩
-          · simp only [List.length_take]; omega
-        obtain ⟨bb, hbb⟩ := hsl (if (Option.map (fun x => x.toNat) (List.take n (a :: b :: body))[2]? = some 42) then 3 else 2) (by split <;> omega)
+          · rw [hlt]; split <;> omega
+        obtain ⟨bb, hbb⟩ := hsl
         rw [hbb]
         simp only [ne_eq, reduceCtorEq, not_false_eq_true, Try.yes.injEq, true_and]
         rintro s rfl
@@ -355,22 +352,19 @@ theorem logosNext_valid {rest : Bytes} (h : Valid rest) {k : Kind} {n : Nat} {t 
       · cases hl; exact h.drop_bestLit operators_ascii
       · cases hl; exact h.drop_regex
 
-/-- One scanner step on valid UTF-8 without `/**/`: no panic, and the remaining input is again
-valid UTF-8 without `/**/`. -/
-theorem nextRaw_safe (input : Bytes) (pos0 : Pos) (h : Valid input) (hd : hasEmptyDoc input = false) :
-    nextRaw input pos0 ≠ .panic ∧
-      ∀ s, nextRaw input pos0 = .tok s → Valid s.rest ∧ hasEmptyDoc s.rest = false := by
+/-- One scanner step on valid UTF-8: no panic, and the remaining input is again valid UTF-8. -/
+theorem nextRaw_safe (input : Bytes) (pos0 : Pos) (h : Valid input) :
+    nextRaw input pos0 ≠ .panic ∧ ∀ s, nextRaw input pos0 = .tok s → Valid s.rest := by
   unfold nextRaw
   simp only
   have hv : Valid (input.drop (run isAsciiWs input)) := h.drop_run (fun _ => isAsciiWs_lt)
   rw [bump_of_valid_drop (run_le _ _) hv]
   simp only
   generalize wsPos input pos0 = pos
-  have hd' := hasEmptyDoc_drop input (run isAsciiWs input) hd
-  generalize input.drop (run isAsciiWs input) = rest at hv hd'
+  generalize input.drop (run isAsciiWs input) = rest at hv
   have fin : ∀ (t : Try Scanned) (o : Step), TrySafe rest t →
-      (o ≠ .panic ∧ ∀ s, o = .tok s → Valid s.rest ∧ hasEmptyDoc s.rest = false) →
-      (ofTry t o ≠ .panic ∧ ∀ s, ofTry t o = .tok s → Valid s.rest ∧ hasEmptyDoc s.rest = false) := by
+      (o ≠ .panic ∧ ∀ s, o = .tok s → Valid s.rest) →
+      (ofTry t o ≠ .panic ∧ ∀ s, ofTry t o = .tok s → Valid s.rest) := by
     intro t o ht ho
     cases t with
     | no => simpa [ofTry] using ho
@@ -378,11 +372,10 @@ theorem nextRaw_safe (input : Bytes) (pos0 : Pos) (h : Valid input) (hd : hasEmp
     | yes s0 =>
       simp only [ofTry, ne_eq, reduceCtorEq, not_false_eq_true, Step.tok.injEq, true_and]
       rintro s rfl
-      obtain ⟨hv0, k, hk⟩ := ht.2 s0 rfl
-      exact ⟨hv0, by rw [hk]; exact hasEmptyDoc_drop _ _ hd'⟩
+      exact (ht.2 s0 rfl).1
   apply fin _ _ (lexStrLit_safe rest pos hv)
   apply fin _ _ (lexLineComment_safe rest pos hv)
-  apply fin _ _ (lexBlockComment_safe rest pos hv hd')
+  apply fin _ _ (lexBlockComment_safe rest pos hv)
   split
   · simp
   · split
@@ -393,11 +386,10 @@ theorem nextRaw_safe (input : Bytes) (pos0 : Pos) (h : Valid input) (hd : hasEmp
       | yes s0 =>
         simp only [ofTry, ne_eq, reduceCtorEq, not_false_eq_true, Step.tok.injEq, true_and]
         rintro s rfl
-        obtain ⟨hv0, k, hk⟩ := hs.2 s0 he
-        exact ⟨hv0, by rw [hk]; exact hasEmptyDoc_drop _ _ hd'⟩
+        exact (hs.2 s0 he).1
     · rename_i k n text hl
       simp only [ne_eq, reduceCtorEq, not_false_eq_true, Step.tok.injEq, true_and]
       rintro s rfl
-      exact ⟨logosNext_valid hv hl, hasEmptyDoc_drop _ _ hd'⟩
+      exact logosNext_valid hv hl
 
 end SamVerif.Lexer
